@@ -34,6 +34,15 @@ Theorem C12_last_error_kept : forall c h e,
                /\ snd (r_out (retry c h e)) = snd (h n) /\ snd (h n) <> 0%N.
 Proof. exact retry_last_error_kept. Qed.
 
+(** whenever an error is returned (exhaustion or early give-up, any script) every attempt made
+    failed and the error is the non-nil error of the last attempt *)
+Theorem C12_error_is_last_attempts : forall c h e,
+  is_ok (r_out (retry c h e)) = false ->
+  exists n, calls (r_trace (retry c h e)) = seq 0 (S n)
+            /\ (forall j, (j <= n)%nat -> is_ok (h j) = false)
+            /\ snd (r_out (retry c h e)) = snd (h n) /\ snd (h n) <> 0%N.
+Proof. exact retry_error_is_last. Qed.
+
 (** a failure is never turned into a success *)
 Theorem C12_never_invents_success : forall c h e,
   is_ok (r_out (retry c h e)) = true -> exists n, is_ok (h n) = true /\ r_out (retry c h e) = h n.
@@ -72,6 +81,12 @@ Theorem C12_backoff_lower_bound : forall c h e, cfg_ok c -> env_ok c h e = true 
     /\ ((rfac c == 0)%Q -> w_wait it <> STOP -> w_wait it = w_cur it)
     /\ (max_elapsed c = 0 -> w_wait it <> STOP /\ w_cur it = cur_at c (w_k it)).
 Proof. exact retry_backoff_lower_bound. Qed.
+
+(** ... and that instant ([w_twake]) is when the k-th re-invocation starts *)
+Theorem C12_retry_starts_after_wait : forall c h e it,
+  In it (r_waits (retry c h e)) -> w_ctx it = false ->
+  exists te, In (ECall (w_k it) (w_twake it) te) (r_trace (retry c h e)).
+Proof. exact retry_call_at. Qed.
 
 (** the generator in closed form: if a j = InitialInterval x Multiplier^j is integral for
     j <= k, Multiplier >= 1 and InitialInterval <= MaxInterval, the interval before the
@@ -135,10 +150,12 @@ Print Assumptions C12_first_success_wins.
 Print Assumptions C12_attempt_bound.
 Print Assumptions C12_attempt_bound_nonpositive.
 Print Assumptions C12_last_error_kept.
+Print Assumptions C12_error_is_last_attempts.
 Print Assumptions C12_never_invents_success.
 Print Assumptions C12_exhausted_returns_last_error.
 Print Assumptions C12_hook_sequence.
 Print Assumptions C12_backoff_lower_bound.
+Print Assumptions C12_retry_starts_after_wait.
 Print Assumptions C12_backoff_schedule_closed_form.
 Print Assumptions C12_delay_interval_tight.
 Print Assumptions C12_early_exit_only_on_ctx.
